@@ -128,7 +128,7 @@ func (w *c27World) Setup(s *dsim.Sim) {
 	w.m = w.fw.ConnectScript(w.v, "M", 0)
 	w.h.WantChannels(true, "chA", "chB", "chC", "chZ")
 	w.fw.Party("P")
-	s.ArmFraction([]int{0, 50, 100}[t.Draw(3, "arm-pct")], []string{"floodsub/handle-publish", "floodsub/handle-valid", "floodsub/deliver", "floodsub/exec-publish", "go:pubsub/floodsub/"})
+	s.ArmFraction([]int{0, 50, 100}[t.Draw(3, "arm-pct")], []string{"floodsub/handle-publish", "floodsub/handle-valid", "floodsub/deliver", "floodsub/exec-publish", "go:pubsub/floodsub/", "cache/"})
 }
 
 func (w *c27World) kindOf(data string) string {
